@@ -11,7 +11,8 @@
    Fuel only bounds recursion depth: every statement holds for ALL fuels for
    which the SPEC side is defined (= the reference graph is acyclic within that
    depth); `fuel_suffices` gives the bound from any rank function. *)
-From SV Require Import Lib.Base C18.Model C18.RefProofs C18.DecProofs C18.MainProofs.
+From Coq Require Import Lia.
+From SV Require Import Lib.Base C18.Model C18.RefProofs C18.DecProofs C18.MainProofs C18.InputProofs C18.Outline C18.OutlineProofs C18.Prefix C18.PrefixProofs.
 
 (* ------------------------------------------------------------------ *)
 (* 1. MultiRef.process realises the SPEC on the heap                   *)
@@ -53,18 +54,45 @@ Print Assumptions decode_heap_is_decode_tree.
 (* 3. the property                                                     *)
 (* ------------------------------------------------------------------ *)
 
+(* input_ok h b: ONE boolean function of the reply as parsed (Model.v):
+   referenced elements are no references themselves, one href per element, the
+   Body refers to nothing and is nobody's child, child ids are nodes of the
+   heap, every node has one parent (a tree-shaped document), and an element
+   whose href is answered is a bare referrer (no children, no arrayType of its
+   own).  It implies the condition on the PROCESSED heap that
+   decode_heap_is_decode_tree needs: what process adds to a tree is only the
+   sharing of referenced children, and all nodes sharing a child then read the
+   same arrayType. *)
+Theorem input_ok_heap_ok : forall fuel h b tb h',
+  input_ok h b = true ->
+  inline fuel (the_catalog h b) h b = Some tb ->
+  process fuel h b = Some h' -> heap_ok h' = true.
+Proof. exact input_ok_heap_ok_l. Qed.
+Print Assumptions input_ok_heap_ok.
+
 (* The full statement "for every body, get_reply = spec_reply" is FALSE of the
    faithful model: see unmarked_before_response_refuted below.  Guarded form
    (the _partial form of the brief): the response element r is the first
    serialization root, i.e. every independent element placed before it is
-   marked SOAP-ENC:root other than '1'. *)
-Theorem multiref_equiv : forall fuel Sc ret h b r tb h',
+   marked SOAP-ENC:root other than '1'.  All hypotheses are about the reply as
+   parsed; the third only says that the reference graph is acyclic within the
+   fuel (fuel_suffices). *)
+Theorem multiref_equiv : forall fuel Sc ret h b r tb,
+  input_ok h b = true -> first_root_is h b r = true ->
+  inline fuel (the_catalog h b) h b = Some tb ->
+  get_reply fuel Sc ret h b = spec_reply fuel Sc ret h b r.
+Proof. exact multiref_equiv_input_l. Qed.
+Print Assumptions multiref_equiv.
+
+(* the more general form it follows from: any body (referrers need not be
+   bare, the document need not be a tree) whose processed heap is heap_ok *)
+Theorem multiref_equiv_processed : forall fuel Sc ret h b r tb h',
   wf_refs h b = true -> body_top h b = true -> first_root_is h b r = true ->
   inline fuel (the_catalog h b) h b = Some tb ->
   process fuel h b = Some h' -> heap_ok h' = true ->
   get_reply fuel Sc ret h b = spec_reply fuel Sc ret h b r.
 Proof. exact multiref_equiv_l. Qed.
-Print Assumptions multiref_equiv.
+Print Assumptions multiref_equiv_processed.
 
 (* `outl cat h t n`: node n is t written with ANY subset of its values out of
    line (bare href referrers to catalogued elements, shared or not, nested to
@@ -77,14 +105,29 @@ Print Assumptions outlined_inlines_back.
 
 (* ... and the client returns the decoding of the in-line reply `tr` that the
    body out-lines, whatever the out-lining. *)
-Theorem outline_invariant : forall fuel Sc ret h b r tb h',
-  wf_refs h b = true -> body_top h b = true -> first_root_is h b r = true ->
+Theorem outline_invariant : forall fuel Sc ret h b r tb,
+  input_ok h b = true -> first_root_is h b r = true ->
   outl (the_catalog h b) h tb b -> height tb <= fuel ->
-  process fuel h b = Some h' -> heap_ok h' = true ->
   exists tr, outl (the_catalog h b) h tr r /\ In tr (t_kids tb) /\
              get_reply fuel Sc ret h b = decode_reply fuel Sc ret (Some (t_kids tr)).
-Proof. exact outline_invariant_l. Qed.
+Proof. exact outline_invariant_input_l. Qed.
 Print Assumptions outline_invariant.
+
+(* The constructive form.  `outline c t` (Outline.v) WRITES the Body for the
+   in-line response element t: the choices c say, per occurrence (by path),
+   in line / out of line / out of line sharing the independent element of an
+   equal value written before, and how ids are spelt; independent elements
+   follow the response element.  For ALL choices with an injective id spelling
+   and ALL in-line replies without id/href/SOAP-ENC:root attributes: the Body
+   satisfies input_ok, the response element is its first root, it out-lines t
+   in the sense of `outl`, and the client returns decode t. *)
+Theorem outline_constructive : forall c t fuel Sc ret,
+  (forall i j, ch_spell c i = ch_spell c j -> i = j) -> plainT t = true -> S (height t) <= fuel ->
+  let '(h, b, r) := outline c t in
+  input_ok h b = true /\ first_root_is h b r = true /\ outl (the_catalog h b) h t r /\
+  get_reply fuel Sc ret h b = decode_reply fuel Sc ret (Some (t_kids t)).
+Proof. exact outline_correct_l. Qed.
+Print Assumptions outline_constructive.
 
 (* fuel suffices: any rank decreasing along children bounds the depth *)
 Theorem fuel_suffices : forall (h : heap) (rk : nat -> nat),
@@ -157,6 +200,87 @@ Proof. exact array_is_list_l. Qed.
 Print Assumptions array_is_list.
 
 (* ------------------------------------------------------------------ *)
+(* 6. prefixes of moved content (Prefix.v)                             *)
+(* ------------------------------------------------------------------ *)
+
+(* Since db8b9ec replace_references copies the referenced element's own prefix
+   declarations onto the referrer.  For every prefix p: what p means at the
+   referrer n after the move (where the moved attributes and their QName
+   values are now resolved) is what it meant at the referenced element m --
+   if m declares p itself (its binding wins over the referrer's), or else if
+   neither the referrer nor any element between it and the Body rebinds p
+   (then both read the Body's binding). *)
+Theorem moved_attributes_keep_their_prefixes : forall h n m body q0,
+  n < length h -> ~ In n (p_kids (pgetn h m)) ->
+  p_parent (pgetn h m) = Some body -> p_parent (pgetn h body) = None ->
+  body <> n -> ~ In body (p_kids (pgetn h m)) -> p_parent (pgetn h n) = Some q0 ->
+  forall p u k,
+  (assoc p (p_decls (pgetn h m)) = None ->
+     assoc p (p_decls (pgetn h n)) = None /\ climbs k h q0 body p (off_path h n m)) ->
+  resolves h m p u -> resolves (move true h n m) n p u.
+Proof. exact moved_attrs_l. Qed.
+Print Assumptions moved_attributes_keep_their_prefixes.
+
+(* the same for the moved children (whose parent is now the referrer), hence
+   for everything below them *)
+Theorem moved_children_keep_their_prefixes : forall h n m body q0,
+  n < length h -> ~ In n (p_kids (pgetn h m)) ->
+  p_parent (pgetn h m) = Some body -> p_parent (pgetn h body) = None ->
+  body <> n -> ~ In body (p_kids (pgetn h m)) -> p_parent (pgetn h n) = Some q0 ->
+  forall p u k x,
+  In x (p_kids (pgetn h m)) -> x <> n -> x < length h -> p_parent (pgetn h x) = Some m ->
+  (assoc p (p_decls (pgetn h m)) = None ->
+     assoc p (p_decls (pgetn h n)) = None /\ climbs k h q0 body p (off_path h n m)) ->
+  resolves h x p u -> resolves (move true h n m) x p u.
+Proof. exact moved_child_l. Qed.
+Print Assumptions moved_children_keep_their_prefixes.
+
+(* prefix 1 = "q"; namespaces 10 = urn:c18:fixed:a, 2 = XMLSchema, 11 = urn:other.
+   Body(0)[ resp(1)[ return(2) ], r(3)[ nums(4) ], n(5)[ item(6) ] ]: the Body
+   binds q to 10 (promoted from r), n binds q to XMLSchema itself; nums refers to n *)
+Definition px_heap : pheap :=
+  [ mkP None [(1, 10)]%N [1; 3; 5]; mkP (Some 0) [] [2]; mkP (Some 1) [] [];
+    mkP (Some 0) [] [4]; mkP (Some 3) [] []; mkP (Some 0) [(1, 2)]%N [6]; mkP (Some 5) [] [] ].
+
+(* regression witness (KNOWN_FINDINGS C18:prefix-rebound-on-independent-element,
+   fixed): without the copy, q at the referrer means the Body's binding, not
+   the referenced element's; with the copy it means XMLSchema *)
+Theorem move_without_declarations_refuted :
+  resolves px_heap 5 1 2 /\
+  (exists f, resolve f (move false px_heap 4 5) 4 1 = Some 10%N) /\
+  resolves (move true px_heap 4 5) 4 1 2 /\ resolves (move true px_heap 4 5) 6 1 2.
+Proof.
+  split; [exists 1; reflexivity|]. split; [exists 3; reflexivity|].
+  split; [exists 1; reflexivity|exists 2; reflexivity].
+Qed.
+Print Assumptions move_without_declarations_refuted.
+
+(* the guard of the two theorems is needed (observed on the implementation
+   too, evidence key prefix_rebound_on_referrer_path): the referenced element
+   m(3) uses the Body's q = XMLSchema, the response element(1) rebinds q *)
+Definition px_heap2 : pheap :=
+  [ mkP None [(1, 2)]%N [1; 3]; mkP (Some 0) [(1, 11)]%N [2]; mkP (Some 1) [] [];
+    mkP (Some 0) [] [4]; mkP (Some 3) [] [] ].
+
+Theorem rebound_on_referrer_path_refuted :
+  resolves px_heap2 3 1 2 /\ exists f, resolve f (move true px_heap2 2 3) 2 1 = Some 11%N.
+Proof. split; [exists 2; reflexivity|exists 2; reflexivity]. Qed.
+Print Assumptions rebound_on_referrer_path_refuted.
+
+(* the hypotheses of the two theorems hold on the first witness *)
+Example moved_prefixes_nonvacuous :
+  4 < length px_heap /\ ~ In 4 (p_kids (pgetn px_heap 5)) /\
+  p_parent (pgetn px_heap 5) = Some 0 /\ p_parent (pgetn px_heap 0) = None /\
+  p_parent (pgetn px_heap 4) = Some 3 /\ assoc 1 (p_decls (pgetn px_heap 5)) = Some 2%N /\
+  climbs 1 px_heap 3 0 7 (off_path px_heap 4 5).
+Proof.
+  split; [cbn; lia|]. split; [cbn; intros [X|[]]; discriminate|].
+  repeat (split; [reflexivity|]).
+  cbn. split; [discriminate|]. split; [split; [discriminate|intros [X|[]]; discriminate]|].
+  split; [reflexivity|]. exists 0. split; reflexivity.
+Qed.
+
+(* ------------------------------------------------------------------ *)
 (* non-vacuity and the refutation witness                              *)
 (* ------------------------------------------------------------------ *)
 
@@ -209,13 +333,13 @@ Definition ex_expected : dres :=
 Example multiref_equiv_nonvacuous :
   forall resp_first,
   let h := ex_heap true resp_first in
-  wf_refs h 0 = true /\ body_top h 0 = true /\ first_root_is h 0 1 = true /\
+  input_ok h 0 = true /\ first_root_is h 0 1 = true /\
   (exists tb, inline 8 (the_catalog h 0) h 0 = Some tb) /\
   (exists h', process 8 h 0 = Some h' /\ heap_ok h' = true) /\
   get_reply 8 ex_schema (10, 23)%N h 0 = ex_expected /\
   spec_reply 8 ex_schema (10, 23)%N h 0 1 = ex_expected.
 Proof.
-  intros [|]; cbv zeta; (split; [vm_compute; reflexivity|]); (split; [vm_compute; reflexivity|]);
+  intros [|]; cbv zeta; (split; [vm_compute; reflexivity|]);
     (split; [vm_compute; reflexivity|]); (split; [eexists; vm_compute; reflexivity|]);
     (split; [eexists; split; vm_compute; reflexivity|]); split; vm_compute; reflexivity.
 Qed.
@@ -256,20 +380,18 @@ Qed.
    response: everything else holds, yet the client decodes the independent
    element's own content as the reply. *)
 Theorem unmarked_before_response_refuted :
-  exists fuel Sc ret h b r tb h',
-    wf_refs h b = true /\ body_top h b = true /\
+  exists fuel Sc ret h b r tb,
+    input_ok h b = true /\
     inline fuel (the_catalog h b) h b = Some tb /\
-    process fuel h b = Some h' /\ heap_ok h' = true /\
     first_root_is h b r = false /\
     spec_reply fuel Sc ret h b r = ex_expected /\
     get_reply fuel Sc ret h b <> spec_reply fuel Sc ret h b r.
 Proof.
   exists 8%nat, ex_schema, (10, 23)%N, (ex_heap false false), 0%nat, 1%nat.
-  eexists. eexists.
+  eexists.
   split; [vm_compute; reflexivity|]. split; [vm_compute; reflexivity|].
   split; [vm_compute; reflexivity|]. split; [vm_compute; reflexivity|].
-  split; [vm_compute; reflexivity|]. split; [vm_compute; reflexivity|].
-  split; [vm_compute; reflexivity|]. vm_compute. discriminate.
+  vm_compute. discriminate.
 Qed.
 Print Assumptions unmarked_before_response_refuted.
 
@@ -295,3 +417,24 @@ Example array_is_list_nonvacuous :
        (CChild (mkT (10, 23)%N (Some 23%N) (DStruct [mkF 25 (10, 30)%N false false])))
   = DOk (PList [PVal 1 [49]%N; PVal 1 [50]%N]).
 Proof. vm_compute. reflexivity. Qed.
+
+(* the out-liner at work: everything below the response element out of line,
+   sharing on: nums and nums2 carry equal values and refer to ONE independent
+   element (5 independent elements for 6 out-lined occurrences), and the
+   decoded reply is the typed one *)
+Definition ex_plain : tree :=
+  T 10 20 [] None
+    [ T 0 21 [a_person] None
+        [ T 0 24 [] (Some s_bob) [];
+          T 0 25 [a_ints] None [T 0 27 [] (Some [49]%N) []; T 0 27 [] (Some [50]%N) []];
+          T 0 26 [a_ints] None [T 0 27 [] (Some [49]%N) []; T 0 27 [] (Some [50]%N) []] ] ].
+
+Definition ex_choices : choices :=
+  mkCh (fun p => match p with [] => DIn | _ => DOut true end) spell_rep.
+
+Example outline_shares :
+  plainT ex_plain = true /\
+  let '(h, b, r) := outline ex_choices ex_plain in
+  length (n_kids (getn h b)) = 6%nat /\ input_ok h b = true /\
+  get_reply 8 ex_schema (10, 23)%N h b = ex_expected.
+Proof. split; [reflexivity|]. vm_compute. repeat split; reflexivity. Qed.
